@@ -165,9 +165,11 @@ class AbstractDeme(ABC):
     def best_fitness_by_metaepoch(self) -> dict[int, float]:
         metaepoch_to_best_fitness: dict[int, float] = {}
         for metaepoch_idx, metaepoch_history in enumerate(self._history):
-            if not metaepoch_history:
+            individuals = [individual for generation in metaepoch_history for individual in generation]
+            if not individuals:
+                # e.g. a local search that made no iteration records one empty generation
                 continue
-            best_fitness = max(pop for generation in metaepoch_history for pop in generation).fitness
+            best_fitness = max(individuals).fitness
             metaepoch_to_best_fitness[metaepoch_idx + self._started_at] = best_fitness
         return metaepoch_to_best_fitness
 
